@@ -107,7 +107,7 @@ func c13Build(c *engine.C, n int, pkgFull bool) c13Model {
 	// relations to a non-project type and self relations
 	ext := "none"
 	if pkgFull {
-		ext = engine.PickTag(c, "external", "none", "extends-external", "field-external", "call-external", "implements-external", "two-externals")
+		ext = engine.PickTag(c, "external", "none", "extends-external", "field-external", "call-external", "implements-external", "two-externals", "call-external-named-like-t1", "call-external-named-like-t1-before-the-other-calls")
 	}
 	switch ext {
 	case "extends-external":
@@ -118,6 +118,14 @@ func c13Build(c *engine.C, n int, pkgFull bool) c13Model {
 		addRel(0, "call", c13Type{"ext", "Lib"}, false)
 	case "implements-external":
 		addRel(0, "implements", c13Type{"ext", "Lib"}, false)
+	case "call-external-named-like-t1", "call-external-named-like-t1-before-the-other-calls":
+		// a library type that shares its simple name with a project type, called by the type that may also call that one
+		if n >= 2 {
+			addRel(0, "call", c13Type{"org.lib", m.types[1].Name}, false)
+			if fc := ds[0].Functions[0].FunctionCalls; ext == "call-external-named-like-t1-before-the-other-calls" && len(fc) > 1 {
+				ds[0].Functions[0].FunctionCalls = append([]core_domain.CodeCall{fc[len(fc)-1]}, fc[:len(fc)-1]...)
+			}
+		}
 	case "two-externals":
 		// two relations of one type to library types of different packages
 		addRel(0, "implements", c13Type{"ext", "Lib"}, false)
